@@ -335,13 +335,6 @@ theorem io_ended (c : Case) (p : PSt) (r : Ref) (h : Sim c p r) (hph : r.phase â
 theorem zeroTimeout_none (op : Op) (t : Option Nat) (hop : opTimeout op = some t) (ht : (t == some 0) = false) :
     zeroTimeout op = none := by
   have ht' : t â‰  some 0 := by rw [â† beq_eq_false_iff_ne]; exact ht
-  have key : âˆ€ t' : Option Nat, t' â‰  some 0 â†’ (match t' with | some 0 => some 0 | _ => none : Option Nat) = none := by
-    intro t' h
-    cases t' with
-    | none => rfl
-    | some T => cases T with
-      | zero => exact absurd rfl h
-      | succ k => rfl
   cases op with
   | expect ps t' =>
     simp only [opTimeout, Option.some.injEq] at hop; subst hop
